@@ -227,10 +227,11 @@ theorem no_number : No "number" := by
 set_option maxRecDepth 8000 in
 theorem no_string : No "string" := by
   intro f c p t
-  rcases f with _ | _ | _ | _ | _ | f
+  -- both alternatives (block string; `!"\"\"\""` then an ordinary string) fail in front of `[`
+  rcases f with _ | _ | _ | _ | _ | _ | _ | f
   all_goals first
-    | (left; simp [eval, find_string, charClass, r_string, matchStr]; done)
-    | (right; simp [eval, find_string, charClass, r_string, matchStr]; done)
+    | (left; simp [eval, find_string, charClass, r_string, matchStr, bodyCtx]; done)
+    | (right; simp [eval, find_string, charClass, r_string, matchStr, bodyCtx]; done)
 
 set_option maxRecDepth 8000 in
 theorem no_boolean : No "boolean" := by
